@@ -13,6 +13,14 @@ NOTE = ("Trusted: z3 5.1 (sample cross-checked with cvc5 1.4), NumPy object-dtyp
 CLAIMED = {
  'C01': dict(text="v^T A u = a(u_h, v_h), b.v = l(v_h), Functional = v^T A u decided as identities in symbolic vertex coordinates and coefficient vectors for every enumerated (mesh class, element, integrand, basis kind) configuration; real _assemble/interpolate/basis constructors executed",
              tech="symbolic execution of assembly + basis construction on symbolic geometry; polynomial/rational identity queries (z3)", ref="4/C01"),
+ 'C04': dict(text="geometric formulation: same global number => same mapped DOF location for all geometries (linear identities), different numbers of one name => different locations for some geometry (existential), locality of assembled entries through the real COO bookkeeping with fresh symbols per local entry; gap-free range / sharing pattern / table agreement read off concretely",
+             tech="symbolic execution of Dofs/CellBasis on symbolic geometry; linear identity + existential SMT queries", ref="4/C04"),
+ 'C09': dict(text="every exported element: delivered derivative fields equal the symbolic derivative (astdiff) of the delivered value at a symbolic reference point; chain rule through gbasis on a cell with symbolic vertices; partition of unity, nodality, flux/circulation and point-value duality",
+             tech="symbolic execution of lbasis/gbasis + AST differentiation oracle; polynomial/rational identity queries", ref="4/C09"),
+ 'C10': dict(text="F == own map, DF == dF/dX, invDF DF == I, detDF == det, invF o F == id (affine; Newton symbolic on affine geometry, numeric elsewhere), facet map/Gram determinant, FacetBasis normals unit/orthogonal/outward, affine == isoparametric; all point layouts and cell subsets on small meshes with symbolic vertices",
+             tech="symbolic execution of the mapping classes and FacetBasis geometry; identity/inequality SMT queries (nlsat for outwardness)", ref="4/C10"),
+ 'C16': dict(text="trace extraction from the real _assemble (recording Thread, tracing output block), symbolic kernel values; every write equals the serial value (identity), no schedule lets a write follow the read (LIA over event positions), exactly-once and inputs-unchanged from the trace; real-thread replay",
+             tech="trace extraction + SMT model of all schedules (linear integer arithmetic over event positions) + identity queries", ref="4/C16"),
  'C05': dict(text="enforce/penalize/condense/solve run on matrices whose stored entries, rhs, prescribed values and solver output are symbolic; row/rhs identities and the implication 'condensed solution => original equations on kept rows' decided for all values, over all enumerated sparsity patterns n<=3 (n=4 sampled) and all index sets",
              tech="symbolic execution of skfem.utils on a differentially validated sparse stub + z3 identities/implications", ref="4/C05"),
  'C20': dict(text="every integrand helper (NumPy and JAX source) equals its index-sum definition for all tensor entries (2x2, 3x3, trailing axes), and the two variants agree; NonlinearForm/JAX tracing is outside the claim",
